@@ -91,7 +91,38 @@ def write_vectors(args):
             ok = node.write(RF24NetworkFrame(h, buf))
             out.append(dict(kind="write", **{"from": 0o1}, to=0o11, id=h.frame_id, type=ty, res0=res0, msg=list(msg),
                             air=[p["data"] for p in air.log], ret=bool(ok), type_before=before, type_after=h.message_type,
-                            buf_intact=bytes(buf) == msg))
+                            buf_intact=bytes(buf) == msg, exc="none", routed=False))
+    # routed ack-type writes (0o1 -> 0o2 via the master): the NETWORK_ACK arrives while write() waits for it - the frame the
+    # node receives meanwhile must not show through the caller's header; also a one-character string assigned to the
+    # attribute after construction (documented) must be sendable
+    def acc(chip, pkt):
+        d = pkt["data"]
+        if len(d) >= 8 and (64 < d[6] < 148 or (d[6] == 150 and 64 < d[7] < 192)):      # an ack-type message is complete at the far end
+            ack = bytes(d[:2]) + bytes(d[:2]) + bytes(d[4:6]) + bytes([193, d[7]]) + bytes(d[8:])
+            s.at(s.now + 3_000_000, lambda t: c.inject(5, ack))
+        return b""
+    air.acceptor = acc
+    for n in ([0, 5, 24, 60] if len(types) <= 5 else [0, 1, 5, 24, 25, 60, 144]):
+        for (ty, how) in ((65, "int"), (127, "int"), (84, "ctor"), (84, "attr"), (0, "int")):
+            msg = bytes((i * 11 + n + ty) & 0xFF for i in range(n))
+            h = RF24NetworkHeader(0o2, "T" if how == "ctor" else ty)
+            if how == "attr":
+                h.message_type = "T"
+            res0, id0 = h.reserved, h.frame_id
+            before = 84 if how == "attr" else h.message_type
+            air.log.clear()
+            exc, ok = "none", False
+            try:
+                ok = node.write(RF24NetworkFrame(h, msg))
+            except Exception as e:  # noqa
+                exc = type(e).__name__
+            after = h.message_type if not isinstance(h.message_type, str) else ord(h.message_type[0])
+            out.append(dict(kind="write", **{"from": 0o1}, to=0o2, id=id0, type=ty, res0=res0, msg=list(msg),
+                            air=[p["data"] for p in air.log], ret=bool(ok), type_before=before, type_after=after,
+                            buf_intact=True, exc=exc, routed=True))
+            while node.available():
+                node.read()
+    air.acceptor = lambda c_, p_: b""
     # aborted fragmented sends: fragment k is never acknowledged (every attempt lost)
     for n in ([60, 144] if len(types) <= 5 else [49, 60, 100, 144]):
         nfr = (n + 23) // 24
@@ -134,7 +165,7 @@ def run(chk):
         chk.case((v["kind"], str(v.get("f") or (v.get("type"), len(v.get("msg", []))) or v.get("n"))))
         if v["kind"] == "abort" and v["ret"]:
             raise tlc.TlcError("a write() whose fragment is never acknowledged returned True: harness problem")
-        if v["kind"] == "write" and not v["ret"]:
+        if v["kind"] == "write" and not v["ret"] and v.get("exc", "none") == "none":
             raise tlc.TlcError("write() to an ACKing neighbour returned False: harness problem")
     chk.traces += len(vec)
     chk.sample(next(v for v in vec if v["kind"] == "hdr"))
